@@ -18,6 +18,7 @@ import (
 	"runtime"
 	"sort"
 	"strings"
+	"sync"
 	"testing"
 
 	"github.com/osrg/gobgp/v4/internal/verif/bgpgen"
@@ -227,11 +228,11 @@ func c04CheckCapValue(r *vr.Report, cs c04Case, c bgpgen.Cap) bool {
 	var err error
 	l0 := -1
 	if p := c04Try(func() { l0 = c.Cap.Len(); b, err = c.Cap.Serialize() }); p != "" {
-		r.Violationf("C04:panic:"+c04PanicKey(p), cs, "capability %s: %s", c.Name, p)
+		c04V(r, "C04:panic:"+c04PanicKey(p), cs, "capability %s: %s", c.Name, p)
 		return false
 	}
 	if err != nil {
-		r.Violationf("C04:serialize-error:cap:"+tn, cs, "capability %s does not serialise: %v", c.Name, err)
+		c04V(r, "C04:serialize-error:cap:"+tn, cs, "capability %s does not serialise: %v", c.Name, err)
 		return false
 	}
 	cs.Hex = c04Hex(b)
@@ -241,35 +242,35 @@ func c04CheckCapValue(r *vr.Report, cs c04Case, c bgpgen.Cap) bool {
 		r.Outcome("cap:len-before-serialize-differs(not-claimed)")
 	}
 	if l := c.Cap.Len(); l != len(b) {
-		r.Violationf("C04:Len!=emitted:serialized:cap:"+tn, cs, "capability %s: Len()=%d after Serialize emitted %d bytes", c.Name, l, len(b))
+		c04V(r, "C04:Len!=emitted:serialized:cap:"+tn, cs, "capability %s: Len()=%d after Serialize emitted %d bytes", c.Name, l, len(b))
 	}
 	want, _ := c04JSON(c.Cap)
 	for si, sen := range c04Sentinels {
 		in := append(append([]byte{}, b...), sen...)
 		var d bgp.ParameterCapabilityInterface
 		if p := c04Try(func() { d, err = bgp.DecodeCapability(in) }); p != "" {
-			r.Violationf("C04:panic:"+c04PanicKey(p), cs, "capability %s: decode %s", c.Name, p)
+			c04V(r, "C04:panic:"+c04PanicKey(p), cs, "capability %s: decode %s", c.Name, p)
 			return false
 		}
 		if err != nil {
-			r.Violationf("C04:decode-rejects-own-encoding:cap:"+tn+":"+c04ErrClass(err), cs, "capability %s: own encoding %s rejected: %v", c.Name, c04Hex(b), err)
+			c04V(r, "C04:decode-rejects-own-encoding:cap:"+tn+":"+c04ErrClass(err), cs, "capability %s: own encoding %s rejected: %v", c.Name, c04Hex(b), err)
 			return false
 		}
 		if d.Len() != len(b) {
-			r.Violationf("C04:consumed!=emitted:cap:"+tn, cs, "capability %s: decoder consumed %d of %d emitted bytes (sentinel #%d)", c.Name, d.Len(), len(b), si)
+			c04V(r, "C04:consumed!=emitted:cap:"+tn, cs, "capability %s: decoder consumed %d of %d emitted bytes (sentinel #%d)", c.Name, d.Len(), len(b), si)
 			return false
 		}
 		b2, err := d.Serialize()
 		if err != nil || !bytes.Equal(b2, b) {
-			r.Violationf("C04:roundtrip-bytes-differ:cap:"+tn, cs, "capability %s: %s re-serialises to %s (%v)", c.Name, c04Hex(b), c04Hex(b2), err)
+			c04V(r, "C04:roundtrip-bytes-differ:cap:"+tn, cs, "capability %s: %s re-serialises to %s (%v)", c.Name, c04Hex(b), c04Hex(b2), err)
 			return false
 		}
 		if got, _ := c04JSON(d); got != want {
-			r.Violationf("C04:roundtrip-value-differs:cap:"+tn, cs, "capability %s: JSON before %s after %s", c.Name, want, got)
+			c04V(r, "C04:roundtrip-value-differs:cap:"+tn, cs, "capability %s: JSON before %s after %s", c.Name, want, got)
 			return false
 		}
 		if d.Code() != c.Cap.Code() {
-			r.Violationf("C04:roundtrip-value-differs:cap:"+tn, cs, "capability %s: code %d became %d", c.Name, c.Cap.Code(), d.Code())
+			c04V(r, "C04:roundtrip-value-differs:cap:"+tn, cs, "capability %s: code %d became %d", c.Name, c.Cap.Code(), d.Code())
 			return false
 		}
 	}
@@ -404,11 +405,11 @@ func c04CheckAttrValue(r *vr.Report, cs c04Case, name string, a bgp.PathAttribut
 	var err error
 	l0 := -1
 	if p := c04Try(func() { l0 = a.Len(o.Opts...); b, err = a.Serialize(o.Opts...) }); p != "" {
-		r.Violationf("C04:panic:"+c04PanicKey(p), cs, "attribute %s [%s]: %s", ab.Name, o.Name, p)
+		c04V(r, "C04:panic:"+c04PanicKey(p), cs, "attribute %s [%s]: %s", ab.Name, o.Name, p)
 		return false
 	}
 	if err != nil {
-		r.Violationf("C04:serialize-error:attr:"+tn+c04LsFailingTLV(a), cs, "attribute %s [%s] does not serialise: %v", ab.Name, o.Name, err)
+		c04V(r, "C04:serialize-error:attr:"+tn+c04LsFailingTLV(a), cs, "attribute %s [%s] does not serialise: %v", ab.Name, o.Name, err)
 		return false
 	}
 	cs.Hex = c04Hex(b)
@@ -416,7 +417,7 @@ func c04CheckAttrValue(r *vr.Report, cs c04Case, name string, a bgp.PathAttribut
 	if lenClause && l0 != len(b) {
 		ok = false
 		for _, cause := range c04LenCauses(a, o, l0, len(b)) {
-			r.Violationf("C04:Len!=emitted:constructed:"+tn+cause, cs, "attribute %s [%s]: constructed value reports Len()=%d, Serialize() emits %d bytes", ab.Name, o.Name, l0, len(b))
+			c04V(r, "C04:Len!=emitted:constructed:"+tn+cause, cs, "attribute %s [%s]: constructed value reports Len()=%d, Serialize() emits %d bytes", ab.Name, o.Name, l0, len(b))
 		}
 	}
 	// extended-length decision: the flag must be set exactly when needed or when the value asked for it
@@ -428,7 +429,7 @@ func c04CheckAttrValue(r *vr.Report, cs c04Case, name string, a bgp.PathAttribut
 		}
 		if !ext && vlen > 255 {
 			ok = false
-			r.Violationf("C04:extended-length-bit-missing:"+tn, cs, "attribute %s [%s]: %d value bytes emitted without the extended-length bit", ab.Name, o.Name, vlen)
+			c04V(r, "C04:extended-length-bit-missing:"+tn, cs, "attribute %s [%s]: %d value bytes emitted without the extended-length bit", ab.Name, o.Name, vlen)
 		}
 	}
 	c04DropIDs(o, []bgp.PathAttributeInterface{a})
@@ -444,38 +445,38 @@ func c04CheckAttrValue(r *vr.Report, cs c04Case, name string, a bgp.PathAttribut
 				err = d.DecodeFromBytes(in, o.Opts...)
 			}
 		}); p != "" {
-			r.Violationf("C04:panic:"+c04PanicKey(p), cs, "attribute %s [%s]: decode %s", ab.Name, o.Name, p)
+			c04V(r, "C04:panic:"+c04PanicKey(p), cs, "attribute %s [%s]: decode %s", ab.Name, o.Name, p)
 			return false
 		}
 		if err != nil {
-			r.Violationf("C04:decode-rejects-own-encoding:"+tn+":"+c04ErrClass(err), cs, "attribute %s [%s]: own encoding %s rejected: %v", ab.Name, o.Name, c04Hex(b), err)
+			c04V(r, "C04:decode-rejects-own-encoding:"+tn+":"+c04ErrClass(err), cs, "attribute %s [%s]: own encoding %s rejected: %v", ab.Name, o.Name, c04Hex(b), err)
 			return false
 		}
 		if dl := d.Len(o.Opts...); dl != len(b) {
-			r.Violationf("C04:consumed!=emitted:"+tn, cs, "attribute %s [%s]: decoder consumed %d of %d emitted bytes (sentinel #%d)", ab.Name, o.Name, dl, len(b), si)
+			c04V(r, "C04:consumed!=emitted:"+tn, cs, "attribute %s [%s]: decoder consumed %d of %d emitted bytes (sentinel #%d)", ab.Name, o.Name, dl, len(b), si)
 			return false
 		}
 		var b2 []byte
 		if p := c04Try(func() { b2, err = d.Serialize(o.Opts...) }); p != "" {
-			r.Violationf("C04:panic:"+c04PanicKey(p), cs, "attribute %s [%s]: re-serialise %s", ab.Name, o.Name, p)
+			c04V(r, "C04:panic:"+c04PanicKey(p), cs, "attribute %s [%s]: re-serialise %s", ab.Name, o.Name, p)
 			return false
 		}
 		if err != nil || !bytes.Equal(b2, b) {
-			r.Violationf("C04:roundtrip-bytes-differ:"+tn+shape, cs, "attribute %s [%s]: %s re-serialises to %s (first difference at %d; err=%v)", ab.Name, o.Name, c04Hex(b), c04Hex(b2), c04FirstDiff(b, b2), err)
+			c04V(r, "C04:roundtrip-bytes-differ:"+tn+shape, cs, "attribute %s [%s]: %s re-serialises to %s (first difference at %d; err=%v)", ab.Name, o.Name, c04Hex(b), c04Hex(b2), c04FirstDiff(b, b2), err)
 			return false
 		}
 		if got, _ := c04JSON(d); got != want {
-			r.Violationf("C04:roundtrip-value-differs:"+tn, cs, "attribute %s [%s]: JSON before %.600s after %.600s", ab.Name, o.Name, want, got)
+			c04V(r, "C04:roundtrip-value-differs:"+tn, cs, "attribute %s [%s]: JSON before %.600s after %.600s", ab.Name, o.Name, want, got)
 			return false
 		}
 		gotS := ""
 		c04Try(func() { gotS = d.String() })
 		if gotS != wantS {
-			r.Violationf("C04:roundtrip-string-differs:"+tn, cs, "attribute %s [%s]: String() before %.300q after %.300q", ab.Name, o.Name, wantS, gotS)
+			c04V(r, "C04:roundtrip-string-differs:"+tn, cs, "attribute %s [%s]: String() before %.300q after %.300q", ab.Name, o.Name, wantS, gotS)
 			return false
 		}
 		if d.GetType() != a.GetType() || d.GetFlags()&^bgp.BGP_ATTR_FLAG_EXTENDED_LENGTH != a.GetFlags()&^bgp.BGP_ATTR_FLAG_EXTENDED_LENGTH {
-			r.Violationf("C04:roundtrip-value-differs:"+tn, cs, "attribute %s [%s]: type/flags %d/%#x became %d/%#x", ab.Name, o.Name, a.GetType(), a.GetFlags(), d.GetType(), d.GetFlags())
+			c04V(r, "C04:roundtrip-value-differs:"+tn, cs, "attribute %s [%s]: type/flags %d/%#x became %d/%#x", ab.Name, o.Name, a.GetType(), a.GetFlags(), d.GetType(), d.GetFlags())
 			return false
 		}
 	}
@@ -511,13 +512,9 @@ func c04Shape(n bgp.NLRI) string {
 			return "rules>=240-bytes(2-octet-length-form)"
 		}
 	case *bgp.LabeledIPAddrPrefix:
-		if c04LabelMarkerShape(t.Labels.Labels) {
-			return c04LabelShapeName
-		}
+		return c04LabelMarkerShape(t.Labels.Labels)
 	case *bgp.LabeledVPNIPAddrPrefix:
-		if c04LabelMarkerShape(t.Labels.Labels) {
-			return c04LabelShapeName
-		}
+		return c04LabelMarkerShape(t.Labels.Labels)
 	case *bgp.EVPNNLRI:
 		if t.RouteType == bgp.EVPN_I_PMSI {
 			return "route-type-9(I-PMSI)"
@@ -539,7 +536,7 @@ func (x c04Rep) V(clause, extra string, cs c04Case, format string, a ...any) {
 		key = "C04:nlri:" + x.tn + ":" + x.shape
 		format = "[" + clause + "] " + format
 	}
-	x.r.Violationf(key, cs, format, a...)
+	c04V(x.r, key, cs, format, a...)
 }
 
 func c04CheckNLRIValue(r *vr.Report, cs c04Case, fam bgp.Family, name string, n bgp.NLRI, lenClause bool) bool {
@@ -551,7 +548,7 @@ func c04CheckNLRIValue(r *vr.Report, cs c04Case, fam bgp.Family, name string, n 
 	var err error
 	l0 := -1
 	if p := c04Try(func() { l0 = n.Len(); b, err = n.Serialize() }); p != "" {
-		r.Violationf("C04:panic:"+c04PanicKey(p), cs, "NLRI %s: %s", name, p)
+		c04V(r, "C04:panic:"+c04PanicKey(p), cs, "NLRI %s: %s", name, p)
 		return false
 	}
 	if err != nil {
@@ -576,7 +573,7 @@ func c04CheckNLRIValue(r *vr.Report, cs c04Case, fam bgp.Family, name string, n 
 		in := append(append([]byte{}, b...), sen...)
 		var d bgp.NLRI
 		if p := c04Try(func() { d, err = bgp.NLRIFromSlice(fam, in) }); p != "" {
-			r.Violationf("C04:panic:"+c04PanicKey(p), cs, "NLRI %s: decode %s", name, p)
+			c04V(r, "C04:panic:"+c04PanicKey(p), cs, "NLRI %s: decode %s", name, p)
 			return false
 		}
 		if err != nil {
@@ -589,7 +586,7 @@ func c04CheckNLRIValue(r *vr.Report, cs c04Case, fam bgp.Family, name string, n 
 		}
 		var b2 []byte
 		if p := c04Try(func() { b2, err = d.Serialize() }); p != "" {
-			r.Violationf("C04:panic:"+c04PanicKey(p), cs, "NLRI %s: re-serialise %s", name, p)
+			c04V(r, "C04:panic:"+c04PanicKey(p), cs, "NLRI %s: re-serialise %s", name, p)
 			return false
 		}
 		if err != nil || !bytes.Equal(b2, b) {
@@ -626,41 +623,41 @@ func c04CheckMsg(r *vr.Report, mb bgpgen.MsgBuilder, o bgpgen.OptSet) bool {
 	var b []byte
 	var err error
 	if p := c04Try(func() { b, err = m.Serialize(o.Opts...) }); p != "" {
-		r.Violationf("C04:panic:"+c04PanicKey(p), cs, "message %s [%s]: %s", mb.Name, o.Name, p)
+		c04V(r, "C04:panic:"+c04PanicKey(p), cs, "message %s [%s]: %s", mb.Name, o.Name, p)
 		return false
 	}
 	if err != nil {
-		r.Violationf("C04:serialize-error:msg:"+mb.Kind, cs, "message %s [%s] does not serialise: %v", mb.Name, o.Name, err)
+		c04V(r, "C04:serialize-error:msg:"+mb.Kind, cs, "message %s [%s] does not serialise: %v", mb.Name, o.Name, err)
 		return false
 	}
 	cs.Hex = c04Hex(b)
 	if int(m.Header.Len) != len(b) {
-		r.Violationf("C04:header-length!=emitted:"+mb.Kind, cs, "message %s [%s]: header says %d, %d bytes emitted", mb.Name, o.Name, m.Header.Len, len(b))
+		c04V(r, "C04:header-length!=emitted:"+mb.Kind, cs, "message %s [%s]: header says %d, %d bytes emitted", mb.Name, o.Name, m.Header.Len, len(b))
 		return false
 	}
 	// (1) independent framing
 	ref, rerr := refwire.Read(b, c04RefOpts(o))
 	if rerr != nil {
-		r.Violationf("C04:refwire-rejects:"+mb.Kind+":"+c04RefErrClass(rerr), cs, "message %s [%s]: emitted bytes are not well-formed for the independent reader: %v; bytes %s", mb.Name, o.Name, rerr, c04Hex(b))
+		c04V(r, "C04:refwire-rejects:"+mb.Kind+":"+c04RefErrClass(rerr), cs, "message %s [%s]: emitted bytes are not well-formed for the independent reader: %v; bytes %s", mb.Name, o.Name, rerr, c04Hex(b))
 		return false
 	}
 	// (2) parse back
 	var d *bgp.BGPMessage
 	if p := c04Try(func() { d, err = bgp.ParseBGPMessage(b, o.Opts...) }); p != "" {
-		r.Violationf("C04:panic:"+c04PanicKey(p), cs, "message %s [%s]: parse %s", mb.Name, o.Name, p)
+		c04V(r, "C04:panic:"+c04PanicKey(p), cs, "message %s [%s]: parse %s", mb.Name, o.Name, p)
 		return false
 	}
 	if err != nil {
-		r.Violationf("C04:decode-rejects-own-encoding:msg:"+mb.Kind+":"+c04ErrClass(err), cs, "message %s [%s]: own encoding rejected: %v; bytes %s", mb.Name, o.Name, err, c04Hex(b))
+		c04V(r, "C04:decode-rejects-own-encoding:msg:"+mb.Kind+":"+c04ErrClass(err), cs, "message %s [%s]: own encoding rejected: %v; bytes %s", mb.Name, o.Name, err, c04Hex(b))
 		return false
 	}
 	var b2 []byte
 	if p := c04Try(func() { b2, err = d.Serialize(o.Opts...) }); p != "" {
-		r.Violationf("C04:panic:"+c04PanicKey(p), cs, "message %s [%s]: re-serialise %s", mb.Name, o.Name, p)
+		c04V(r, "C04:panic:"+c04PanicKey(p), cs, "message %s [%s]: re-serialise %s", mb.Name, o.Name, p)
 		return false
 	}
 	if err != nil || !bytes.Equal(b2, b) {
-		r.Violationf("C04:roundtrip-bytes-differ:msg:"+mb.Kind+c04DiffWhere(ref, c04FirstDiff(b, b2)), cs, "message %s [%s]: %s re-serialises to %s (first difference at %d; err=%v)", mb.Name, o.Name, c04Hex(b), c04Hex(b2), c04FirstDiff(b, b2), err)
+		c04V(r, "C04:roundtrip-bytes-differ:msg:"+mb.Kind+c04DiffWhere(ref, c04FirstDiff(b, b2)), cs, "message %s [%s]: %s re-serialises to %s (first difference at %d; err=%v)", mb.Name, o.Name, c04Hex(b), c04Hex(b2), c04FirstDiff(b, b2), err)
 		return false
 	}
 	// (3) value equality
@@ -670,7 +667,7 @@ func c04CheckMsg(r *vr.Report, mb bgpgen.MsgBuilder, o bgpgen.OptSet) bool {
 	want, _ := c04JSON(m)
 	got, _ := c04JSON(d)
 	if got != want {
-		r.Violationf("C04:roundtrip-value-differs:msg:"+mb.Kind+c04JSONDiffKey(m, d), cs, "message %s [%s]: JSON before %.700s after %.700s", mb.Name, o.Name, want, got)
+		c04V(r, "C04:roundtrip-value-differs:msg:"+mb.Kind+c04JSONDiffKey(m, d), cs, "message %s [%s]: JSON before %.700s after %.700s", mb.Name, o.Name, want, got)
 		return false
 	}
 	// (4) field boundaries: gobgp's Len() of every element vs the independent reader
@@ -680,20 +677,20 @@ func c04CheckMsg(r *vr.Report, mb bgpgen.MsgBuilder, o bgpgen.OptSet) bool {
 		u := ref.Update
 		lenOK := true
 		if len(u.Attrs) != len(body.PathAttributes) {
-			r.Violationf("C04:boundaries:attr-count", cs, "message %s [%s]: reader sees %d attributes, gobgp %d", mb.Name, o.Name, len(u.Attrs), len(body.PathAttributes))
+			c04V(r, "C04:boundaries:attr-count", cs, "message %s [%s]: reader sees %d attributes, gobgp %d", mb.Name, o.Name, len(u.Attrs), len(body.PathAttributes))
 			return false
 		}
 		for i, ra := range u.Attrs {
 			pa := body.PathAttributes[i]
 			if int(pa.GetType()) != int(ra.Type) || pa.Len(o.Opts...) != ra.Total() {
-				r.Violationf("C04:boundaries:attr:"+c04AttrTypeName(pa), cs, "message %s [%s]: attribute #%d: reader type %d at %d spanning %d bytes; gobgp type %d Len()=%d", mb.Name, o.Name, i, ra.Type, ra.Off, ra.Total(), pa.GetType(), pa.Len(o.Opts...))
+				c04V(r, "C04:boundaries:attr:"+c04AttrTypeName(pa), cs, "message %s [%s]: attribute #%d: reader type %d at %d spanning %d bytes; gobgp type %d Len()=%d", mb.Name, o.Name, i, ra.Type, ra.Off, ra.Total(), pa.GetType(), pa.Len(o.Opts...))
 				return false
 			}
 			if i < len(orig.PathAttributes) && orig.PathAttributes[i].Len(o.Opts...) != ra.Total() {
 				// same keys as the elements part: one root cause, one key
 				oa := orig.PathAttributes[i]
 				for _, cause := range c04LenCauses(oa, o, oa.Len(o.Opts...), ra.Total()) {
-					r.Violationf("C04:Len!=emitted:constructed:"+c04AttrTypeName(oa)+cause, cs, "message %s [%s]: attribute #%d of the constructed message reports Len()=%d but occupies %d bytes on the wire", mb.Name, o.Name, i, oa.Len(o.Opts...), ra.Total())
+					c04V(r, "C04:Len!=emitted:constructed:"+c04AttrTypeName(oa)+cause, cs, "message %s [%s]: attribute #%d of the constructed message reports Len()=%d but occupies %d bytes on the wire", mb.Name, o.Name, i, oa.Len(o.Opts...), ra.Total())
 				}
 				lenOK = false
 			}
@@ -702,13 +699,13 @@ func c04CheckMsg(r *vr.Report, mb bgpgen.MsgBuilder, o bgpgen.OptSet) bool {
 			return false
 		}
 		if int(body.WithdrawnRoutesLen) != u.WithdrawnLen || int(body.TotalPathAttributeLen) != u.AttrsLen {
-			r.Violationf("C04:boundaries:update-lengths", cs, "message %s [%s]: withdrawn/attr lengths reader %d/%d gobgp %d/%d", mb.Name, o.Name, u.WithdrawnLen, u.AttrsLen, body.WithdrawnRoutesLen, body.TotalPathAttributeLen)
+			c04V(r, "C04:boundaries:update-lengths", cs, "message %s [%s]: withdrawn/attr lengths reader %d/%d gobgp %d/%d", mb.Name, o.Name, u.WithdrawnLen, u.AttrsLen, body.WithdrawnRoutesLen, body.TotalPathAttributeLen)
 			return false
 		}
 		for _, mr := range u.MPReach {
 			pa, _ := body.PathAttributes[mr.Attr].(*bgp.PathAttributeMpReachNLRI)
 			if pa == nil || pa.AFI != mr.AFI || pa.SAFI != mr.SAFI {
-				r.Violationf("C04:boundaries:mp-reach-header", cs, "message %s [%s]: MP_REACH header differs (reader afi/safi %d/%d)", mb.Name, o.Name, mr.AFI, mr.SAFI)
+				c04V(r, "C04:boundaries:mp-reach-header", cs, "message %s [%s]: MP_REACH header differs (reader afi/safi %d/%d)", mb.Name, o.Name, mr.AFI, mr.SAFI)
 				return false
 			}
 			if mr.Parsed && !c04SamePrefixes(r, cs, "mp-reach", mr.Prefixes, pa.Value, o.AddPath(bgp.NewFamily(mr.AFI, mr.SAFI))) {
@@ -724,7 +721,7 @@ func c04CheckMsg(r *vr.Report, mb bgpgen.MsgBuilder, o bgpgen.OptSet) bool {
 		for _, mr := range u.MPUnreach {
 			pa, _ := body.PathAttributes[mr.Attr].(*bgp.PathAttributeMpUnreachNLRI)
 			if pa == nil || pa.AFI != mr.AFI || pa.SAFI != mr.SAFI {
-				r.Violationf("C04:boundaries:mp-unreach-header", cs, "message %s [%s]: MP_UNREACH header differs (reader afi/safi %d/%d)", mb.Name, o.Name, mr.AFI, mr.SAFI)
+				c04V(r, "C04:boundaries:mp-unreach-header", cs, "message %s [%s]: MP_UNREACH header differs (reader afi/safi %d/%d)", mb.Name, o.Name, mr.AFI, mr.SAFI)
 				return false
 			}
 			if mr.Parsed && !c04SamePrefixes(r, cs, "mp-unreach", mr.Prefixes, pa.Value, o.AddPath(bgp.NewFamily(mr.AFI, mr.SAFI))) {
@@ -734,41 +731,41 @@ func c04CheckMsg(r *vr.Report, mb bgpgen.MsgBuilder, o bgpgen.OptSet) bool {
 	case *bgp.BGPOpen:
 		ro := ref.Open
 		if len(ro.Params) != len(body.OptParams) || ro.OptParamLen != int(body.OptParamLen) {
-			r.Violationf("C04:boundaries:open-params", cs, "message %s [%s]: reader sees %d optional parameters (%d bytes), gobgp %d (%d)", mb.Name, o.Name, len(ro.Params), ro.OptParamLen, len(body.OptParams), body.OptParamLen)
+			c04V(r, "C04:boundaries:open-params", cs, "message %s [%s]: reader sees %d optional parameters (%d bytes), gobgp %d (%d)", mb.Name, o.Name, len(ro.Params), ro.OptParamLen, len(body.OptParams), body.OptParamLen)
 			return false
 		}
 		for i, rp := range ro.Params {
 			pc, isCap := body.OptParams[i].(*bgp.OptionParameterCapability)
 			if (rp.Type == 2) != isCap {
-				r.Violationf("C04:boundaries:open-params", cs, "message %s [%s]: optional parameter #%d type %d, gobgp %T", mb.Name, o.Name, i, rp.Type, body.OptParams[i])
+				c04V(r, "C04:boundaries:open-params", cs, "message %s [%s]: optional parameter #%d type %d, gobgp %T", mb.Name, o.Name, i, rp.Type, body.OptParams[i])
 				return false
 			}
 			if !isCap {
 				continue
 			}
 			if len(rp.Caps) != len(pc.Capability) {
-				r.Violationf("C04:boundaries:cap-count", cs, "message %s [%s]: parameter #%d: reader sees %d capabilities, gobgp %d", mb.Name, o.Name, i, len(rp.Caps), len(pc.Capability))
+				c04V(r, "C04:boundaries:cap-count", cs, "message %s [%s]: parameter #%d: reader sees %d capabilities, gobgp %d", mb.Name, o.Name, i, len(rp.Caps), len(pc.Capability))
 				return false
 			}
 			for j, rc := range rp.Caps {
 				if uint8(pc.Capability[j].Code()) != rc.Code || pc.Capability[j].Len() != rc.Total() {
-					r.Violationf("C04:boundaries:cap:"+c04TypeName(pc.Capability[j]), cs, "message %s [%s]: capability #%d: reader code %d spanning %d bytes, gobgp code %d Len()=%d", mb.Name, o.Name, j, rc.Code, rc.Total(), pc.Capability[j].Code(), pc.Capability[j].Len())
+					c04V(r, "C04:boundaries:cap:"+c04TypeName(pc.Capability[j]), cs, "message %s [%s]: capability #%d: reader code %d spanning %d bytes, gobgp code %d Len()=%d", mb.Name, o.Name, j, rc.Code, rc.Total(), pc.Capability[j].Code(), pc.Capability[j].Len())
 					return false
 				}
 			}
 		}
 		if ro.Version != body.Version || ro.AS != body.MyAS || ro.HoldTime != body.HoldTime || ro.ID != body.ID.As4() {
-			r.Violationf("C04:boundaries:open-fixed-fields", cs, "message %s [%s]: fixed OPEN fields differ", mb.Name, o.Name)
+			c04V(r, "C04:boundaries:open-fixed-fields", cs, "message %s [%s]: fixed OPEN fields differ", mb.Name, o.Name)
 			return false
 		}
 	case *bgp.BGPNotification:
 		if ref.Notification.Code != body.ErrorCode || ref.Notification.Subcode != body.ErrorSubcode || ref.Notification.DataLen != len(body.Data) {
-			r.Violationf("C04:boundaries:notification", cs, "message %s [%s]: notification fields differ", mb.Name, o.Name)
+			c04V(r, "C04:boundaries:notification", cs, "message %s [%s]: notification fields differ", mb.Name, o.Name)
 			return false
 		}
 	case *bgp.BGPRouteRefresh:
 		if ref.RouteRefresh.AFI != body.AFI || ref.RouteRefresh.SAFI != body.SAFI || ref.RouteRefresh.Subtype != body.Demarcation {
-			r.Violationf("C04:boundaries:route-refresh", cs, "message %s [%s]: route-refresh fields differ", mb.Name, o.Name)
+			c04V(r, "C04:boundaries:route-refresh", cs, "message %s [%s]: route-refresh fields differ", mb.Name, o.Name)
 			return false
 		}
 	}
@@ -814,7 +811,7 @@ func c04ElementsSound(r *vr.Report, m *bgp.BGPMessage, o bgpgen.OptSet) bool {
 
 func c04SamePrefixes(r *vr.Report, cs c04Case, what string, ref []refwire.Prefix, got []bgp.PathNLRI, addPath bool) bool {
 	if len(ref) != len(got) {
-		r.Violationf("C04:boundaries:"+what+"-count", cs, "%s [%s]: reader sees %d %s prefixes, gobgp %d", cs.Name, cs.Opt, len(ref), what, len(got))
+		c04V(r, "C04:boundaries:"+what+"-count", cs, "%s [%s]: reader sees %d %s prefixes, gobgp %d", cs.Name, cs.Opt, len(ref), what, len(got))
 		return false
 	}
 	for i, rp := range ref {
@@ -825,7 +822,7 @@ func c04SamePrefixes(r *vr.Report, cs c04Case, what string, ref []refwire.Prefix
 		}
 		nb, _ := n.NLRI.Serialize()
 		if l != rp.Len || (addPath && n.ID != rp.PathID) || len(nb) < 1 || int(nb[0]) != rp.Bits || !bytes.Equal(nb[1:], rp.Bytes) {
-			r.Violationf("C04:boundaries:"+what+"-prefix", cs, "%s [%s]: %s prefix #%d: reader path-id %d, %d bits, %x, %d bytes; gobgp id %d %s Len()+id=%d", cs.Name, cs.Opt, what, i, rp.PathID, rp.Bits, rp.Bytes, rp.Len, n.ID, n.NLRI, l)
+			c04V(r, "C04:boundaries:"+what+"-prefix", cs, "%s [%s]: %s prefix #%d: reader path-id %d, %d bits, %x, %d bytes; gobgp id %d %s Len()+id=%d", cs.Name, cs.Opt, what, i, rp.PathID, rp.Bits, rp.Bytes, rp.Len, n.ID, n.NLRI, l)
 			return false
 		}
 	}
@@ -896,7 +893,7 @@ func c04CheckString(r *vr.Report, f bgp.Family, s []byte) {
 	var x bgp.NLRI
 	var err error
 	if p := c04Try(func() { x, err = bgp.NLRIFromSlice(f, s) }); p != "" {
-		r.Violationf("C04:panic:"+c04PanicKey(p), c04StrCase(f, s), "NLRIFromSlice(%s, %x): %s", f, s, p)
+		c04V(r, "C04:panic:"+c04PanicKey(p), c04StrCase(f, s), "NLRIFromSlice(%s, %x): %s", f, s, p)
 		return
 	}
 	if err != nil {
@@ -906,7 +903,7 @@ func c04CheckString(r *vr.Report, f bgp.Family, s []byte) {
 	tn := c04TypeName(x)
 	l := x.Len()
 	if l > len(s) || l <= 0 {
-		r.Violationf("C04:strings:Len-outside-input:"+tn, c04StrCase(f, s), "%s decoder accepted %x but reports Len()=%d (input has %d bytes)", f, s, l, len(s))
+		c04V(r, "C04:strings:Len-outside-input:"+tn, c04StrCase(f, s), "%s decoder accepted %x but reports Len()=%d (input has %d bytes)", f, s, l, len(s))
 		return
 	}
 	// value signature: type, String() and the serialised form (cheaper than JSON; the serialised form
@@ -914,14 +911,14 @@ func c04CheckString(r *vr.Report, f bgp.Family, s []byte) {
 	var b1 []byte
 	var serr error
 	if p := c04Try(func() { b1, serr = x.Serialize() }); p != "" {
-		r.Violationf("C04:panic:"+c04PanicKey(p), c04StrCase(f, s), "%s: Serialize of value decoded from %x: %s", f, s, p)
+		c04V(r, "C04:panic:"+c04PanicKey(p), c04StrCase(f, s), "%s: Serialize of value decoded from %x: %s", f, s, p)
 		return
 	}
 	sx := x.String()
 	if l < len(s) {
 		var y bgp.NLRI
 		if p := c04Try(func() { y, err = bgp.NLRIFromSlice(f, s[:l]) }); p != "" {
-			r.Violationf("C04:panic:"+c04PanicKey(p), c04StrCase(f, s), "NLRIFromSlice(%s, %x): %s", f, s[:l], p)
+			c04V(r, "C04:panic:"+c04PanicKey(p), c04StrCase(f, s), "NLRIFromSlice(%s, %x): %s", f, s[:l], p)
 			return
 		}
 		same := err == nil
@@ -937,37 +934,37 @@ func c04CheckString(r *vr.Report, f bgp.Family, s []byte) {
 			}
 			key := "C04:strings:value-depends-on-bytes-beyond-Len:" + tn
 			if c04MarkerMidStack(x, s) {
-				key = "C04:nlri:" + tn + ":" + c04LabelShapeName // same decoder quirk, seen from the byte side
+				key = "C04:nlri:" + tn + ":" + c04LabelInsideShape // the same decoder quirk, seen from the byte side
 			}
-			r.Violationf(key, c04StrCase(f, s), "%s decoder: input %x gives %s claiming %d bytes consumed, but those %d bytes alone give %s", f, s, jx, l, l, jy)
+			c04V(r, key, c04StrCase(f, s), "%s decoder: input %x gives %s claiming %d bytes consumed, but those %d bytes alone give %s", f, s, jx, l, l, jy)
 			return
 		}
 	}
 	if serr != nil {
 		jx, _ := c04JSON(x)
-		r.Violationf("C04:strings:accepted-value-does-not-serialise:"+tn, c04StrCase(f, s), "%s decoder accepted %x (%s) but the value does not serialise: %v", f, s, jx, serr)
+		c04V(r, "C04:strings:accepted-value-does-not-serialise:"+tn, c04StrCase(f, s), "%s decoder accepted %x (%s) but the value does not serialise: %v", f, s, jx, serr)
 		return
 	}
 	if len(b1) != l {
-		r.Violationf("C04:strings:Len!=emitted:"+tn, c04StrCase(f, s), "%s decoder: %x decoded to %s with Len()=%d, re-serialised to %d bytes %x", f, s, sx, l, len(b1), b1)
+		c04V(r, "C04:strings:Len!=emitted:"+tn, c04StrCase(f, s), "%s decoder: %x decoded to %s with Len()=%d, re-serialised to %d bytes %x", f, s, sx, l, len(b1), b1)
 		return
 	}
 	var x2 bgp.NLRI
 	if p := c04Try(func() { x2, err = bgp.NLRIFromSlice(f, b1) }); p != "" {
-		r.Violationf("C04:panic:"+c04PanicKey(p), c04StrCase(f, s), "NLRIFromSlice(%s, %x): %s", f, b1, p)
+		c04V(r, "C04:panic:"+c04PanicKey(p), c04StrCase(f, s), "NLRIFromSlice(%s, %x): %s", f, b1, p)
 		return
 	}
 	if err != nil {
-		r.Violationf("C04:strings:reserialised-form-rejected:"+tn, c04StrCase(f, s), "%s decoder: %x -> %s -> %x is rejected: %v", f, s, sx, b1, err)
+		c04V(r, "C04:strings:reserialised-form-rejected:"+tn, c04StrCase(f, s), "%s decoder: %x -> %s -> %x is rejected: %v", f, s, sx, b1, err)
 		return
 	}
 	b2, err := x2.Serialize()
 	if x2.String() != sx {
-		r.Violationf("C04:strings:reserialised-form-differs:"+tn, c04StrCase(f, s), "%s decoder: %x -> %s -> %x -> %s", f, s, sx, b1, x2.String())
+		c04V(r, "C04:strings:reserialised-form-differs:"+tn, c04StrCase(f, s), "%s decoder: %x -> %s -> %x -> %s", f, s, sx, b1, x2.String())
 		return
 	}
 	if err != nil || !bytes.Equal(b1, b2) {
-		r.Violationf("C04:strings:no-fixpoint:"+tn, c04StrCase(f, s), "%s decoder: %x -> %x -> %x (%v)", f, s, b1, b2, err)
+		c04V(r, "C04:strings:no-fixpoint:"+tn, c04StrCase(f, s), "%s decoder: %x -> %x -> %x (%v)", f, s, b1, b2, err)
 		return
 	}
 	k := l
@@ -1118,6 +1115,7 @@ func c04Replay(t *testing.T, r *vr.Report) {
 func TestVerif_C04_Elements(t *testing.T) {
 	r := vr.Start(t, "C04", "elements")
 	defer r.Finish()
+	defer c04Smallest(r)
 	r.Rule = "every capability (70), every path attribute of the catalogue (~1300: all types, field boundary products, lengths crossing 255, MP_REACH/MP_UNREACH of all 26 families) x 16 option sets, every NLRI of all 26 families (~415), each decoded back with 0 and 3 kinds of trailing sentinel bytes; non-trivial = distinct (item, option set) that serialised, was accepted by its decoder and passed every clause"
 	if r.ReplayPath() != "" {
 		c04Replay(t, r)
@@ -1167,6 +1165,7 @@ func TestVerif_C04_Elements(t *testing.T) {
 func TestVerif_C04_Messages(t *testing.T) {
 	r := vr.Start(t, "C04", "messages")
 	defer r.Finish()
+	defer c04Smallest(r)
 	r.Rule = "every message of the bgpgen catalogue (OPEN: field boundaries, each capability, ordered pairs of capability kinds; UPDATE: each attribute alone, NLRI/withdrawn boundaries, representatives in a full announcement, all ordered pairs of attribute-kind representatives; thorough: + all unordered triples, half with 2 NLRI + 1 withdrawn; NOTIFICATION, ROUTE-REFRESH, KEEPALIVE; sizes at the 4096/65535 limits) x every compatible option set of 16; non-trivial = distinct (message, option set) accepted by refwire and by ParseBGPMessage with every clause evaluated"
 	if r.ReplayPath() != "" {
 		c04Replay(t, r)
@@ -1217,6 +1216,7 @@ func TestVerif_C04_Messages(t *testing.T) {
 func TestVerif_C04_Strings(t *testing.T) {
 	r := vr.Start(t, "C04", "strings")
 	defer r.Finish()
+	defer c04Smallest(r)
 	r.Rule = "core families (IPv4/IPv6 unicast, multicast, labelled, VPN, VPN-multicast): every byte string of length <= N over the full alphabet, plus templated strings <len: 0..255><label-stack shape><RD shape><0..T octets over {00,01,80,ff}> long enough to reach the labelled/VPN accepting paths; every accepted string is checked; non-trivial = distinct (family, first two consumed bytes) among the accepted strings that passed every clause"
 	if r.ReplayPath() != "" {
 		c04Replay(t, r)
@@ -1314,19 +1314,26 @@ func c04Mutations(msg []byte, f func(m []byte)) {
 	}
 }
 
-// c04LabelMarkerShape reports whether a label stack holds the value 0 or 0x80000 above the bottom of the
-// stack: on the wire these are 0x000000 / 0x800000, which the decoder treats as the RFC 3107 withdraw
-// markers wherever they appear.
-func c04LabelMarkerShape(l []uint32) bool {
+// c04LabelMarkerShape classifies a label stack that holds the value 0 or 0x80000 above the bottom of the
+// stack: on the wire these are 0x000000 / 0x800000, the RFC 3107 withdraw markers. "top": the marker value
+// is the first of several labels (indistinguishable on the wire from a one-label withdraw marker followed
+// by prefix octets); "inside": it sits between other labels.
+func c04LabelMarkerShape(l []uint32) string {
 	for i := 0; i+1 < len(l); i++ {
 		if l[i] == 0 || l[i] == 0x80000 {
-			return true
+			if i == 0 {
+				return c04LabelTopShape
+			}
+			return c04LabelInsideShape
 		}
 	}
-	return false
+	return ""
 }
 
-const c04LabelShapeName = "mpls-label-0-or-0x80000-above-bottom-of-stack"
+const (
+	c04LabelTopShape    = "mpls-label-0-or-0x80000-on-top-of-a-deeper-stack"
+	c04LabelInsideShape = "mpls-label-0-or-0x80000-inside-the-stack"
+)
 
 // c04NLRIsOf lists the NLRI carried in the MP attributes of an UPDATE.
 func c04NLRIsOf(m *bgp.BGPMessage) []bgp.NLRI {
@@ -1346,6 +1353,16 @@ func c04NLRIsOf(m *bgp.BGPMessage) []bgp.NLRI {
 		}
 	}
 	return out
+}
+
+func c04UnmapNextHops(m *bgp.BGPMessage) {
+	if u, ok := m.Body.(*bgp.BGPUpdate); ok {
+		for _, a := range u.PathAttributes {
+			if t, ok := a.(*bgp.PathAttributeMpReachNLRI); ok {
+				t.Nexthop = t.Nexthop.Unmap()
+			}
+		}
+	}
 }
 
 // c04StaleCause explains why the re-serialised body has another length than the parsed header says.
@@ -1390,7 +1407,7 @@ func c04CheckAccepted(r *vr.Report, o bgpgen.OptSet, seed string, b []byte) {
 	var err error
 	in := append([]byte{}, b...)
 	if p := c04Try(func() { m1, err = bgp.ParseBGPMessage(in, o.Opts...) }); p != "" {
-		r.Violationf("C04:panic:"+c04PanicKey(p), cs, "ParseBGPMessage [%s] of %s: %s", o.Name, c04Hex(b), p)
+		c04V(r, "C04:panic:"+c04PanicKey(p), cs, "ParseBGPMessage [%s] of %s: %s", o.Name, c04Hex(b), p)
 		return
 	}
 	if err != nil || m1 == nil {
@@ -1411,22 +1428,24 @@ func c04CheckAccepted(r *vr.Report, o bgpgen.OptSet, seed string, b []byte) {
 		}
 		if len(labels) == 0 {
 			if _, e := n.Serialize(); e != nil {
-				r.Violationf("C04:strings:accepted-value-does-not-serialise:"+c04TypeName(n), cs, "[%s] %s is accepted with a labelled NLRI that has no label (%s), which does not serialise: %v", o.Name, c04Hex(b), n, e)
+				c04V(r, "C04:strings:accepted-value-does-not-serialise:"+c04TypeName(n), cs, "[%s] %s is accepted with a labelled NLRI that has no label (%s), which does not serialise: %v", o.Name, c04Hex(b), n, e)
 				return
 			}
 		}
-		if c04LabelMarkerShape(labels) {
+		if shape := c04LabelMarkerShape(labels); shape != "" {
 			b1, _ := m1.Serialize(o.Opts...)
 			m2, e2 := bgp.ParseBGPMessage(append([]byte{}, b1...), o.Opts...)
+			c04UnmapNextHops(m1)
 			j1, _ := c04JSON(m1)
 			j2 := "rejected"
 			if e2 == nil {
+				c04UnmapNextHops(m2)
 				j2, _ = c04JSON(m2)
 			} else {
 				j2 += ": " + e2.Error()
 			}
 			if j1 != j2 {
-				r.Violationf("C04:nlri:"+c04TypeName(n)+":"+c04LabelShapeName, cs, "[%s] %s is accepted with label stack %v; it re-serialises to %s, which parses to %.400s (was %.400s)", o.Name, c04Hex(b), labels, c04Hex(b1), j2, j1)
+				c04V(r, "C04:nlri:"+c04TypeName(n)+":"+shape, cs, "[%s] %s is accepted with label stack %v; it re-serialises to %s, which parses to %.400s (was %.400s)", o.Name, c04Hex(b), labels, c04Hex(b1), j2, j1)
 			} else {
 				r.Outcome("accepted:label-marker-shape-but-stable")
 			}
@@ -1435,35 +1454,39 @@ func c04CheckAccepted(r *vr.Report, o bgpgen.OptSet, seed string, b []byte) {
 	}
 	var b1 []byte
 	if p := c04Try(func() { b1, err = m1.Serialize(o.Opts...) }); p != "" {
-		r.Violationf("C04:panic:"+c04PanicKey(p), cs, "[%s] Serialize of the message parsed from %s: %s", o.Name, c04Hex(b), p)
+		c04V(r, "C04:panic:"+c04PanicKey(p), cs, "[%s] Serialize of the message parsed from %s: %s", o.Name, c04Hex(b), p)
 		return
 	}
 	if err != nil {
-		r.Violationf("C04:accepted:does-not-serialise:"+c04Culprit(m1, o)+":"+c04ErrClass(err), cs, "[%s] %s is accepted but the parsed message does not serialise: %v", o.Name, c04Hex(b), err)
+		c04V(r, "C04:accepted:does-not-serialise:"+c04Culprit(m1, o)+":"+c04ErrClass(err), cs, "[%s] %s is accepted but the parsed message does not serialise: %v", o.Name, c04Hex(b), err)
 		return
 	}
 	if len(b1) != int(m1.Header.Len) {
-		r.Violationf("C04:accepted:header-length-stale-after-reserialise:"+c04StaleCause(b, b1, m1, o), cs, "[%s] %s is accepted; the parsed message re-serialises to %d bytes %s but keeps the parsed header length %d", o.Name, c04Hex(b), len(b1), c04Hex(b1), m1.Header.Len)
+		c04V(r, "C04:accepted:header-length-stale-after-reserialise:"+c04StaleCause(b, b1, m1, o), cs, "[%s] %s is accepted; the parsed message re-serialises to %d bytes %s but keeps the parsed header length %d", o.Name, c04Hex(b), len(b1), c04Hex(b1), m1.Header.Len)
 		return
 	}
-	j1, _ := c04JSON(m1)
 	var m2 *bgp.BGPMessage
 	if p := c04Try(func() { m2, err = bgp.ParseBGPMessage(append([]byte{}, b1...), o.Opts...) }); p != "" {
-		r.Violationf("C04:panic:"+c04PanicKey(p), cs, "ParseBGPMessage [%s] of %s: %s", o.Name, c04Hex(b1), p)
+		c04V(r, "C04:panic:"+c04PanicKey(p), cs, "ParseBGPMessage [%s] of %s: %s", o.Name, c04Hex(b1), p)
 		return
 	}
 	if err != nil {
-		r.Violationf("C04:accepted:reserialised-form-rejected:"+c04AttrKinds(m1)+":"+c04ErrClass(err), cs, "[%s] %s is accepted and re-serialises to %s, which is rejected: %v", o.Name, c04Hex(b), c04Hex(b1), err)
-		return
-	}
-	if j2, _ := c04JSON(m2); j2 != j1 {
-		r.Violationf("C04:accepted:reserialised-form-differs"+c04JSONDiffKeyFam(m1, m2), cs, "[%s] %s parses to %.500s, re-serialises to %s, which parses to %.500s", o.Name, c04Hex(b), j1, c04Hex(b1), j2)
+		c04V(r, "C04:accepted:reserialised-form-rejected:"+c04AttrKinds(m1)+":"+c04ErrClass(err), cs, "[%s] %s is accepted and re-serialises to %s, which is rejected: %v", o.Name, c04Hex(b), c04Hex(b1), err)
 		return
 	}
 	var b2 []byte
 	c04Try(func() { b2, err = m2.Serialize(o.Opts...) })
+	// An IPv4 next hop of an IPv6-AFI MP_REACH_NLRI is written back, by design, as the IPv4-mapped IPv6
+	// address (RFC 4798 style): the two forms denote the same next hop and compare equal here.
+	c04UnmapNextHops(m1)
+	c04UnmapNextHops(m2)
+	j1, _ := c04JSON(m1)
+	if j2, _ := c04JSON(m2); j2 != j1 {
+		c04V(r, "C04:accepted:reserialised-form-differs"+c04JSONDiffKeyFam(m1, m2), cs, "[%s] %s parses to %.500s, re-serialises to %s, which parses to %.500s", o.Name, c04Hex(b), j1, c04Hex(b1), j2)
+		return
+	}
 	if err != nil || !bytes.Equal(b1, b2) {
-		r.Violationf("C04:accepted:no-fixpoint:"+c04AttrKinds(m1), cs, "[%s] %s -> %s -> %s (first difference at %d, err=%v)", o.Name, c04Hex(b), c04Hex(b1), c04Hex(b2), c04FirstDiff(b1, b2), err)
+		c04V(r, "C04:accepted:no-fixpoint:"+c04AttrKinds(m1), cs, "[%s] %s -> %s -> %s (first difference at %d, err=%v)", o.Name, c04Hex(b), c04Hex(b1), c04Hex(b2), c04FirstDiff(b1, b2), err)
 		return
 	}
 	r.NT("accepted:" + what)
@@ -1580,6 +1603,7 @@ func c04CoreSeed(name string) bool {
 func TestVerif_C04_Accepted(t *testing.T) {
 	r := vr.Start(t, "C04", "accepted")
 	defer r.Finish()
+	defer c04Smallest(r)
 	r.Rule = "seeds = every catalogue UPDATE made of classic NLRI/withdrawn fields, the mandatory attributes and MP_REACH/MP_UNREACH of the 10 core families (<= 512 bytes); mutants = the seed itself, every position x 14 values, every adjacent pair as a 2-octet value in {0,1,v-1,v+1,ffff}; under the 8 non-extended option sets; every mutant that ParseBGPMessage accepts without error must serialise, parse back to an equal message and be a fixpoint from the second iteration; non-trivial = distinct shapes (attribute types, families, element counts) of accepted mutants that passed"
 	if r.ReplayPath() != "" {
 		var cs c04Case
@@ -1627,4 +1651,51 @@ func TestVerif_C04_Accepted(t *testing.T) {
 			}
 		}
 	})
+}
+
+// ---------------------------------------------------------------------------------------------
+// smallest example per key: vr keeps the first example recorded for a key (per worker, then in merge
+// order), which under Parallel is not the simplest one. c04V records the violation in vr as usual (so
+// counts are right) and remembers the smallest case seen for the key; c04Smallest, deferred after
+// r.Finish is deferred (so it runs before it), puts that case into the report.
+
+type c04BestV struct {
+	size   int
+	what   string
+	replay any
+}
+
+var c04Best = struct {
+	sync.Mutex
+	m map[string]*c04BestV
+}{m: map[string]*c04BestV{}}
+
+func c04V(r *vr.Report, key string, replay any, format string, a ...any) {
+	what := fmt.Sprintf(format, a...)
+	r.Violation(key, what, replay)
+	size := len(what)
+	if cs, ok := replay.(c04Case); ok {
+		if cs.Part == "" {
+			return // scratch evaluation (c04ElementsSound / c04NLRIsSound): its report is thrown away
+		}
+		size = len(cs.Hex)
+	}
+	c04Best.Lock()
+	// ties: the plainest option set first, then the text (deterministic whatever the worker interleaving)
+	plain := func(w string) bool { return strings.Contains(w, "[noaddpath+as4]") }
+	if b := c04Best.m[key]; b == nil || size < b.size || (size == b.size && (plain(what) && !plain(b.what) || plain(what) == plain(b.what) && what < b.what)) {
+		c04Best.m[key] = &c04BestV{size, what, replay}
+	}
+	c04Best.Unlock()
+}
+
+func c04Smallest(r *vr.Report) {
+	c04Best.Lock()
+	defer c04Best.Unlock()
+	for _, v := range r.Violations {
+		if b := c04Best.m[v.Key]; b != nil {
+			v.What, v.Replay = b.what, b.replay
+		}
+	}
+	c04Best.m = map[string]*c04BestV{}
 }
